@@ -409,6 +409,7 @@ async def run_history(loop: vloop.VirtualLoop, ctx, h: hist.History, stack: str,
     ctx.count(f"lists.{lists['mode']}")
     n_snaps = rng.choice((0, 1)) if ctx.quick else rng.choice((1, 2, 3))
     at = set(rng.sample(range(len(lines)), min(n_snaps, len(lines)))) | {len(lines) - 1}
+    checked: list[list[Any]] = []
     i = 0
     doubles: list[int] = []
     while i < len(lines):
@@ -423,7 +424,8 @@ async def run_history(loop: vloop.VirtualLoop, ctx, h: hist.History, stack: str,
             step = 1
         if any(j in at for j in range(i, i + step)):
             include_expired = rng.random() < 0.5
-            meta = dict(h.meta, shard=ctx.shard, trial=trial, lists=lists, full_gaps=rig.full_gaps, prefix=i + step, of=len(lines), eavesdrop=eavesdrop, stack=stack, include_expired=include_expired, double_reads_at=list(doubles), packets=[f"{d} {f}" for d, f in lines[: i + step]])
+            meta = dict(h.meta, shard=ctx.shard, trial=trial, lists=lists, full_gaps=rig.full_gaps, prefix=i + step, of=len(lines), eavesdrop=eavesdrop, stack=stack, include_expired=include_expired, double_reads_at=list(doubles), earlier_snapshots=list(checked), packets=[f"{d} {f}" for d, f in lines[: i + step]])
+            checked.append([i + step, include_expired])  # (a snapshot check restores into the original gateway too: part of its history)
             await check_snapshot(loop, ctx, rig, include_expired, meta, cfg)
             ctx.seen(f"{h.sig()}|{stack}|{int(eavesdrop)}|{int(include_expired)}")
         i += step
@@ -484,6 +486,8 @@ def replay(data: dict[str, Any]) -> int:
                 rig.full_gaps = meta.get("full_gaps", True)
                 await rig.start()
                 doubles = set(meta.get("double_reads_at", ()))
+                earlier = {int(k): bool(v) for k, v in meta.get("earlier_snapshots", [])}
+                scratch = Ctx(PID, "quick", 0, 0, 1)
                 i = 0
                 while i < len(lines):
                     if i in doubles and i + 1 < len(lines):
@@ -492,6 +496,8 @@ def replay(data: dict[str, Any]) -> int:
                     else:
                         await rig.feed(*lines[i])
                         i += 1
+                    if i in earlier:  # the snapshot checks made on the way (they restore into this gateway)
+                        await check_snapshot(loop, scratch, rig, earlier[i], {"x": 1}, cfg)
                 await check_snapshot(loop, ctx, rig, meta.get("include_expired", False), {k: v for k, v in meta.items() if k != "packets"}, cfg)
                 await rig.stop()
 
